@@ -722,7 +722,7 @@ func min(a, b int) int {
 func main() {
 	run := evid.New("C01", "exploration")
 	defer sbx.RemoveBase()
-	run.Rule = "seeded cases over sizes {0,1,2,100,1023,1024,1025,4096,65515,65516,65517,131075,(3MB)} x content {random, text LF/CRLF, zeros, pointer-prefix+payload, pointer look-alike} x mode {one-shot clean/smudge fed through a pipe in write(2) chunk plans whole/1/7/512/1023/1024/1025/4096/random with pauses, filter-process via an independent pkt-line client with packet sizes 1/2/100/8192/65515/65516/random, git add + git checkout (process and one-shot filters), git hash-object --path --stdin (process and one-shot), git merge through git lfs merge-driver with merged pointer shorter/equal/longer than the overwritten one} x working-tree file at the path {absent, same, empty, 10 bytes, 1024 bytes, longer} x {no extension, one reversible extension, two or three chained extensions}; plus a pointer extension whose clean or smudge program fails (partial output + exit 3, no output + exit 1, full output + exit 1, smudge side not inverting the transform) or whose configuration changes between clean and smudge (removed, renamed, other priority) driven one-shot and by git add: the filter may refuse, but a reported success must still satisfy the oracle; the same with GIT_LFS_PROGRESS naming a usable file, a relative path, a path below a missing directory or below a plain file, a directory, /dev/full; and with RLIMIT_FSIZE of the filter process at 4096 bytes / half / 94 % / exactly / one more than the content size (writes to the temporary object file fail with EFBIG). Oracle: output parses as canonical pointer (ptrspec), oid/size = SHA-256/length of the stored object, stored object = input (or extension image), smudge output = input; merge result vs git merge-file. Class = all coordinates."
+	run.Rule = "seeded cases over sizes {0,1,2,100,1023,1024,1025,4096,65515,65516,65517,131075,(3MB)} x content {random, text LF/CRLF, zeros, pointer-prefix+payload, pointer look-alike, complete pointer-shaped texts that are not pointers (negative/empty/overflowing/hex/float size, oid of 63/65/upper-case/non-hex digits or type md5, unknown or missing version, missing size)} x mode {one-shot clean/smudge fed through a pipe in write(2) chunk plans whole/1/7/512/1023/1024/1025/4096/random with pauses, filter-process via an independent pkt-line client with packet sizes 1/2/100/8192/65515/65516/random, git add + git checkout (process and one-shot filters), git hash-object --path --stdin (process and one-shot), git merge through git lfs merge-driver with merged pointer shorter/equal/longer than the overwritten one} x working-tree file at the path {absent, same, empty, 10 bytes, 1024 bytes, longer} x {no extension, one reversible extension, two or three chained extensions}; plus a pointer extension whose clean or smudge program fails (partial output + exit 3, no output + exit 1, full output + exit 1, smudge side not inverting the transform) or whose configuration changes between clean and smudge (removed, renamed, other priority) driven one-shot and by git add: the filter may refuse, but a reported success must still satisfy the oracle; the same with GIT_LFS_PROGRESS naming a usable file, a relative path, a path below a missing directory or below a plain file, a directory, /dev/full; and with RLIMIT_FSIZE of the filter process at 4096 bytes / half / 94 % / exactly / one more than the content size (writes to the temporary object file fail with EFBIG). Oracle: output parses as canonical pointer (ptrspec), oid/size = SHA-256/length of the stored object, stored object = input (or extension image), smudge output = input; merge result vs git merge-file. Class = all coordinates."
 	run.Assumptions = []string{"inputs are non-pointers by construction (pointer pass-through is C08)", "pipe chunking with pauses is a legal OS schedule; nothing is assumed about timing", "git merge-file is the authority on the expected three-way merge result"}
 	rn := &runner{run: run}
 	r := rand.New(rand.NewSource(run.Seed))
@@ -793,6 +793,24 @@ func main() {
 			}
 			if m == "filter-process" {
 				c.Pk = "/pk100"
+			}
+			add(c)
+		}
+	}
+	// complete texts of pointer shape that are not pointers (negative or malformed size, oid of wrong length or
+	// alphabet, unknown version ...): content like any other
+	for i, kind := range filt.MalformedKinds {
+		ms := []string{"oneshot", "filter-process", "git-add-checkout", "hash-object-process", "hash-object-oneshot"}
+		if !run.Thorough() {
+			ms = []string{ms[i%len(ms)], ms[(i+2)%len(ms)]}
+		}
+		for _, m := range ms {
+			c := tcase{Mode: m, Size: len(filt.MalformedPointer(kind)), Content: "ptrmalformed:" + kind, Wt: "same", Ext: i%4 == 3}
+			if m == "oneshot" {
+				c.Chunk = []string{"whole", "c1", "c7"}[i%3]
+			}
+			if m == "filter-process" {
+				c.Pk = []string{"/pk100", "/pk1", "/pk8192"}[i%3]
 			}
 			add(c)
 		}
